@@ -225,6 +225,12 @@ func ruleIOErr(p *Prog, r *RuleResult) {
 				r.fail(key, p.IPos(i), fmt.Sprintf("the error returned by %s is dropped: an I/O failure at this point is reported as success", what))
 				return
 			}
+			// ... on every path: no way from the call to a return (or back to the call) on which the error value is
+			// neither tested, stored, returned nor carried on
+			if at, dropped := errorDroppedOnSomePath(i, ev); dropped {
+				r.fail(key+"#some-path", p.IPos(at), fmt.Sprintf("there is a path after %s on which the error it returned is never looked at (it is examined only under a condition on the other results): a failure reported together with a full byte count is treated as success", what))
+				return
+			}
 			r.ok(key+" error is returned, panicked, stored or wrapped", p.IPos(i))
 		})
 	}
@@ -872,6 +878,36 @@ func ruleLifecycle(p *Prog, r *RuleResult) {
 			r.ok(fname+": already closed -> nil at entry", p.IPos(ifi))
 		}
 	}
+	// The Reader has nothing to flush: its Close marks the stream closed before it closes the bitstream, whatever
+	// that returns - otherwise a Close that fails half-way leaves a Reader whose bitstream is closed but which still
+	// serves buffered data and then reports a clean end.
+	if rc := p.Method("io", "Reader", "Close"); closedOf["Reader"] != nil {
+		var mark, ibsClose ssa.Instruction
+		eachInstr(rc, func(i ssa.Instruction) {
+			c := callOf(i)
+			if c == nil {
+				return
+			}
+			if isAtomic(c, "SwapInt32", "StoreInt32", "CompareAndSwapInt32") && len(c.Args) >= 2 && fieldVarOfAddr(c.Args[0]) == closedOf["Reader"] {
+				if v, ok := constInt(c.Args[len(c.Args)-1]); ok && v == 1 && mark == nil {
+					mark = i
+				}
+			}
+			if c.IsInvoke() && c.Method.Name() == "Close" {
+				if recv := namedOf(c.Value.Type()); recv != nil && recv.Obj().Pkg() != nil && recv.Obj().Pkg().Path() == p.ModPath && ibsClose == nil {
+					ibsClose = i
+				}
+			}
+		})
+		if ibsClose != nil {
+			n++
+			if mark != nil && instrDominates(mark, ibsClose) {
+				r.ok(p.FnName(rc)+": the stream is marked closed before the bitstream is closed", p.IPos(mark))
+			} else {
+				r.fail(p.FnName(rc)+"#closed-before-bitstream", p.IPos(ibsClose), "Reader.Close closes the bitstream before (or without) marking the stream closed: if the close of the bitstream or of the source fails, later Read calls are served from the buffers of a half-closed stream and end with a clean EOF instead of failing")
+			}
+		}
+	}
 	for _, m := range [][2]string{{"Writer", "Write"}, {"Reader", "Read"}} {
 		f := p.Method("io", m[0], m[1])
 		fname := p.FnName(f)
@@ -1125,6 +1161,62 @@ func ruleBsClosed(p *Prog, r *RuleResult) {
 			r.ok(fname+": tests the closed state first and fails", p.Pos(f.Pos()))
 		} else {
 			r.fail(fname+"#closed-test", p.Pos(f.Pos()), "the operation does not test the closed state before touching the buffer: a closed stream accepts further operations")
+		}
+	}
+	// The bit and word operations have no closed test of their own: they rely on the sentinel Close leaves in the
+	// bits-available field (0) to send them into the flush / refill path, which does test the closed state. So for
+	// each of them: the entry test, evaluated with the sentinel value, must select the branch that calls the
+	// flush/refill helper (a method of the same type) - not the fast path.
+	for _, m := range [][2]string{{"DefaultOutputBitStream", "WriteBit"}, {"DefaultInputBitStream", "ReadBit"}} {
+		f := p.MethodOpt("bitstream", m[0], m[1])
+		if f == nil || f.Blocks == nil {
+			continue
+		}
+		fname := p.FnName(f)
+		ifi := blockIf(f.Blocks[0])
+		if ifi == nil {
+			continue
+		}
+		atom, pos := condAtom(ifi.Cond)
+		bo, ok := atom.(*ssa.BinOp)
+		if !ok {
+			continue
+		}
+		fv := fieldVarOfLoad(stripConv(bo.X))
+		c, okc := constInt(bo.Y)
+		if fv == nil || !okc || fv.Name() != roleField(m[0], "availBits") {
+			continue
+		}
+		n++
+		var val bool
+		switch bo.Op {
+		case token.EQL:
+			val = 0 == c
+		case token.NEQ:
+			val = 0 != c
+		case token.LSS:
+			val = 0 < c
+		case token.LEQ:
+			val = 0 <= c
+		case token.GTR:
+			val = 0 > c
+		case token.GEQ:
+			val = 0 >= c
+		default:
+			continue
+		}
+		taken := f.Blocks[0].Succs[succFor(pos, val)]
+		slow := false
+		for _, in := range taken.Instrs {
+			if cc := callOf(in); cc != nil && cc.StaticCallee() != nil && cc.StaticCallee().Signature.Recv() != nil &&
+				namedOf(cc.StaticCallee().Signature.Recv().Type()) == namedOf(f.Signature.Recv().Type()) {
+				slow = true
+			}
+		}
+		if slow {
+			r.ok(fname+": with the closed sentinel (0 bits available) the entry test selects the flush/refill path", p.IPos(ifi))
+		} else {
+			r.fail(fname+"#closed-sentinel", p.IPos(ifi), "with the sentinel that Close leaves in the bits-available field (0) the entry test of this operation selects the fast path: on a closed stream the operation is accepted (the unsigned field wraps and every later operation is accepted too) instead of reaching the flush/refill path that refuses it")
 		}
 	}
 	r.floor(9, n, "closed-state obligations")
